@@ -444,8 +444,11 @@ func c12(c *Ctx) {
 func nonAcceptingReturns(fn *ssa.Function) []*ssa.Return {
 	var out []*ssa.Return
 	eachInstr(fn, func(i ssa.Instruction) {
-		if r, ok := i.(*ssa.Return); ok && len(r.Results) > 0 && !isNilConst(r.Results[len(r.Results)-1]) {
-			out = append(out, r)
+		if r, ok := i.(*ssa.Return); ok && len(r.Results) > 0 && r.Block().Comment != "recover" {
+			rs := returnValues(r)
+			if !isNilConst(rs[len(rs)-1]) {
+				out = append(out, r)
+			}
 		}
 	})
 	return out
